@@ -636,9 +636,17 @@ func (vc *VC) evalSliceExpr(fr *frame, st *State, x *ast.SliceExpr) Val {
 		vc.oblige(st, "within-len", "", x.Pos(), Le(hi, SLen(s)), "slice extends beyond len into spare capacity")
 	}
 	if isStr {
-		return vc.define("s", MkSlice(SBase(s), Add(SOff(s), lo), Sub(hi, lo), Sub(hi, lo)))
+		out := vc.define("s", MkSlice(SBase(s), Add(SOff(s), lo), Sub(hi, lo), Sub(hi, lo)))
+		vc.linkSlices("E:str", HeapSort(SInt), Term{}, Term{}, out, s, lo)
+		return out
 	}
-	return vc.define("s", MkSlice(SBase(s), Add(SOff(s), lo), Sub(hi, lo), Sub(mx, lo)))
+	out := vc.define("s", MkSlice(SBase(s), Add(SOff(s), lo), Sub(hi, lo), Sub(mx, lo)))
+	if sl, ok := xt.Underlying().(*types.Slice); ok {
+		for _, lf := range vc.leaves(vc.elemKey(sl.Elem()), sl.Elem()) {
+			vc.linkSlices(lf.key, HeapSort(lf.sort), Term{}, Term{}, out, s, lo)
+		}
+	}
+	return out
 }
 
 func (fr *frame) withinLen() bool {
